@@ -62,7 +62,8 @@ TEXT = {
           "union), and emptiness, the single-point test and fullness agree with the denoted set (C13_isEmpty, C13_isPoint, "
           "C13_isFull: a normal form containing every real is the single interval (-inf,+inf)); a count reported by "
           "lp_interval_count_int is the number of integers in the interval (C13_countInt: closed integer ends plus the integers m..n "
-          "strictly inside, disjoint). Status bits, normal form of intersections, the saturation of counts, their sum over a set "
+          "strictly inside, disjoint), and so is a count reported for a whole set in normal form (C13_set_countInt: fold invariant, the "
+          "integer sets of separated intervals are disjoint). Status bits, normal form of intersections, the saturation of counts "
           "and picking are tied by correspondence only (exhaustive over all "
           "128x128 normal-form sets on the atoms of {0,1,2}, 512x512 in the thorough tier, plus random pools with algebraic end points, "
           "half of them handed over with the unrefined isolating interval of the root isolation; pick / contains_int / count_int also on "
